@@ -17,6 +17,10 @@ func main() {
 		cmdVerify(os.Args[2:])
 	case "check":
 		cmdCheck(os.Args[2:])
+	case "schema-draft":
+		cmdSchemaDraft(os.Args[2:])
+	case "mutate":
+		cmdMutate(os.Args[2:])
 	case "replay":
 		cmdReplay(os.Args[2:])
 	case "rt":
